@@ -14,7 +14,7 @@ trap 'git -C /repo worktree remove --force $W >/dev/null 2>&1' EXIT
 run() { # prop patch
   local P=$1 patch=$2
   git -C $W apply "/verif/$patch" 2>/dev/null || { echo "SKIPPED  $P $patch (does not apply to the current tree)"; return; }
-  out=$(HVC_NO_EVIDENCE=1 ./bin/hvc check $P --dir $W 2>&1); rc=$?
+  out=$(HVC_NO_EVIDENCE=1 HVC_NORESCUE=1 ./bin/hvc check $P --dir $W 2>&1); rc=$?
   git -C $W checkout -- .
   v=$(echo "$out" | grep -c "^VIOLATION property=$P ")
   if [ $rc -eq 1 ] && [ $v -ge 1 ]; then
